@@ -312,15 +312,15 @@ def build_case(rng, backend: str, depth: int) -> Case:
     if fs:
         p, name = rng.choice(fs)
         fa = Vr.fuse_at(qc, p, "A", "z_f")
-        add("fuseA-" + name, Vr.place(rng, fa, mdt, "bottom"), {"kind": "fuse", "q": qc, "q2": fa, "path": list(p), "z": "z_f"})
+        add("fuseA-" + name, Vr.place(rng, fa, mdt, "bottom"), {"kind": "fuse", "q": qc, "q2": fa, "path": list(p), "z": "z_f"}, strict=False)
         fb = Vr.fuse_at(qc, p, "B", "z_f")
         if fb is not None:
-            add("fuseB-" + name, Vr.place(rng, fb, mdt, "bottom"), {"kind": "nf", "q": qc, "q2": fb})
+            add("fuseB-" + name, Vr.place(rng, fb, mdt, "bottom"), {"kind": "nf", "q": qc, "q2": fb}, strict=False)
     us = Vr.unfusable(q)
     if us:
         p, name = rng.choice(us)
         u = Vr.unfuse_at(q, p, "y_u")
-        add("unfuse-" + name, Vr.place(rng, u, mdt, "bottom"), {"kind": "nf", "q": q, "q2": u})
+        add("unfuse-" + name, Vr.place(rng, u, mdt, "bottom"), {"kind": "nf", "q": q, "q2": u}, strict=False)
     # call style
     s = Vr.restyle(rng, q)
     add("style", Vr.place(rng, s, mdt, "bottom"), {"kind": "style", "q": q, "q2": s})
